@@ -313,19 +313,6 @@ static const char *judge(const child_res_t *cr, char mode) {
 
 typedef struct { uint64_t children, fate[FATE_N], verdict[VD_N], viol; uint64_t hash; } tally_t;
 
-static char top_lib_frame[128];
-static void find_lib_frame(const char *errpath) { /* first stack frame inside library code of a sanitizer report */
-  top_lib_frame[0] = 0;
-  FILE *f = fopen(errpath, "r");
-  if (!f) return;
-  char line[600];
-  while (fgets(line, sizeof line, f)) {
-    char fnm[128];
-    if (strstr(line, "/inc/m4ri/") && sscanf(line, " #%*d 0x%*x in %127s", fnm) == 1) { snprintf(top_lib_frame, sizeof top_lib_frame, "%s", fnm); break; }
-  }
-  fclose(f);
-}
-
 static int run_one(const char *text, char mode, const char *errpath, tally_t *t, const char *outdir, uint64_t idx, long sub, const char *kind, int emit) {
   sbuf_t full = { 0 };
   sb_printf(&full, "# mode=%c\n%s", mode, text);
@@ -350,9 +337,9 @@ static int run_one(const char *text, char mode, const char *errpath, tally_t *t,
     snprintf(fn, sizeof fn, "%s/viol-%llu-%ld.prog", outdir, (unsigned long long)idx, sub);
     eng_write_file(fn, full.s);
     eng_first_line_matching(errpath, "rror", buf, sizeof buf);
-    find_lib_frame(errpath);
+    eng_find_lib_frame(errpath);
     /* attribution (DESIGN 2.9): a temporary that is not released is C11's clause, everything else here is C18's */
-    printf("V idx=%llu prop=%s class=%s func=%s scen=%s mode=%c file=%s detail=%s\n", (unsigned long long)idx, !strcmp(vc, "leak") ? "C11" : "C18", vc, top_lib_frame[0] ? top_lib_frame : "-", kind, mode, fn, buf);
+    printf("V idx=%llu prop=%s class=%s func=%s scen=%s mode=%c file=%s detail=%s\n", (unsigned long long)idx, !strcmp(vc, "leak") ? "C11" : "C18", vc, eng_top_lib_frame[0] ? eng_top_lib_frame : "-", kind, mode, fn, buf);
   }
   free(full.s);
   return 1;
@@ -633,9 +620,9 @@ static int cmd_exec(int argc, char **argv) {
   const char *vc = judge(&cr, mode);
   char buf[300];
   eng_first_line_matching(errpath, "rror", buf, sizeof buf);
-  find_lib_frame(errpath);
+  eng_find_lib_frame(errpath);
   long v = sim_shared->aux[3];
-  printf("X class=%s fate=%s verdict=%s func=%s mode=%c hash=%016llx detail=%s\n", vc ? vc : "ok", fate_names[cr.fate], v >= 0 && v < VD_N ? vd_names[v] : "?", top_lib_frame[0] ? top_lib_frame : "-", mode,
+  printf("X class=%s fate=%s verdict=%s func=%s mode=%c hash=%016llx detail=%s\n", vc ? vc : "ok", fate_names[cr.fate], v >= 0 && v < VD_N ? vd_names[v] : "?", eng_top_lib_frame[0] ? eng_top_lib_frame : "-", mode,
          (unsigned long long)sim_shared->result_hash, buf);
   unlink(errpath);
   return 0;
